@@ -48,6 +48,10 @@ pub struct Cfg {
     /// (sorts before T1, T2), 1 = "T15" (between T1 and T2), 2 = "Z9" (after both)
     #[serde(default)]
     pub other: u8,
+    /// offer the environment-fault action `Stall` (costly: 20 000 queue entries per execution
+    /// that uses it), enabled in a few configurations only
+    #[serde(default)]
+    pub faults: bool,
 }
 
 pub fn other_topic(o: u8) -> &'static str {
@@ -652,7 +656,7 @@ impl Sys for MeshSys {
                     v.push(Act::Prune(p, 1, b));
                 }
                 v.push(Act::Prune(p, 3, 1));
-                if !self.stalled[p as usize] {
+                if self.cfg.faults && !self.stalled[p as usize] {
                     v.push(Act::Stall(p));
                 }
                 // third topic (only the remote subscribes)
